@@ -251,9 +251,24 @@ func c14R2(c *Ctx) {
 			}
 			// (the renderer elides a literal it has already printed once in the same term)
 			m2 := reOpened.FindStringSubmatch(strings.ReplaceAll(e, `["<stdin>"][:]`, "…[:]"))
-			if m2 != nil && m2[1] == m2[2] && m2[2] == m2[3] && m2[3] == m2[4] && strings.Contains(m2[1], "flag.Args()") {
-				nOpened++
-				continue
+			// the path list is the positional arguments: all of them with -f, all but the first (the
+			// program) without, none when there are none — plus the stdin placeholder
+			if m2 != nil && m2[1] == m2[2] && m2[2] == m2[3] && m2[3] == m2[4] {
+				leaves := map[string]bool{}
+				for _, lf := range phiLeaves(m2[1]) {
+					if strings.HasPrefix(lf, "append(") {
+						inner := strings.TrimSuffix(strings.TrimPrefix(lf, "append("), ", …[:])")
+						for _, l2 := range phiLeaves(inner) {
+							leaves[l2] = true
+						}
+						continue
+					}
+					leaves[lf] = true
+				}
+				if len(leaves) == 3 && leaves["flag.Args()"] && leaves["flag.Args()[1:]"] && leaves["nil"] {
+					nOpened++
+					continue
+				}
 			}
 			okElems = false
 		}
@@ -438,6 +453,24 @@ func rootsPerValue(c *Ctx, rule string) {
 		if !fresh || !dominatesInstr(dec, in) {
 			okFresh = false
 		}
+	}
+	// every decoded value goes through the root selection: from a successful Decode the next Decode
+	// is not reached without the root loop (no fast path that skips the selectors for some programs)
+	{
+		skipped, seenOK := false, false
+		for _, bb := range ep.Blocks {
+			if bb == dec.Block() || !FactsOf(ep).At(bb).KnownNil(dec) {
+				continue
+			}
+			seenOK = true
+			if bb != loop.Header && canSkip(bb, loop.Header, dec.Block()) && !loop.Header.Dominates(bb) {
+				skipped = true
+			}
+		}
+		if !seenOK {
+			skipped = true
+		}
+		c.check(!skipped, rule, "roots-selected-for-every-value", p.InstrPos(dec), "after a successful Decode the next one is reached only through the loop over the selected roots", "after a value was decoded the next value can be decoded without the root selectors having been applied and the roots processed: for some programs `-r E` is silently ignored (and a failing selector goes unreported)")
 	}
 	c.check(okFresh, rule, "root-list-created-per-value", p.InstrPos(loop.Header.Instrs[0]), "the root list is created after the value was decoded", "the root list ranged for a value is not created afresh after that value's Decode (roots: "+r+"): roots selected from earlier values are processed again")
 	// what is appended
